@@ -170,3 +170,44 @@ Theorem Pem_meta_balance_token_kind_refuted :
     parse_root g (toks_of_list ptoks) rx fuel s e = ROk m /\ clean_b g m = true /\ isum g m = (-1)%Z.
 Proof. exact meta_balance_token_kind_refuted. Qed.
 Print Assumptions Pem_meta_balance_token_kind_refuted.
+
+(** --- bracket structure, as a theorem about the parser-engine interpreter.
+    [brk_safe_b g] is a decidable condition on the dumped grammar graph, evaluated on every dialect's graph
+    on every run (coq/gen/PemBrk_<d>.v): the start and end matchers of every bracket set (the dialect's
+    "bracket_pairs", the pair of every [Bracketed] node) are String/MultiString parsers behind Refs, matchers
+    that compare [==] parse the same strings into the same kind, and no NodeMatcher builds a node of kind
+    [bracketed].  It implies the side condition [wf_safe_b] of the well-formedness theorems (Props/C02.v).
+    [Shape g toks s e ch] - the children [ch] of a bracketed node spanning the tokens [s, e) -: the first child
+    is the opening bracket (one re-tagged code token at [s]), a later child is the closing bracket (one
+    re-tagged code token at [e - 1], behind the opening one), and the two tokens are accepted - text and
+    kind - by the start and the end parser of one and the same bracket pair of the graph. *)
+From Sq Require Import Pem.WfSafe Pem.BrkShape Pem.BrkShapeProofs Pem.BrkShapeEx.
+
+(** Every node of kind [bracketed], at any depth of the root match, for every safe graph, token map, regex
+    oracle, fuel and span. *)
+Theorem Pem_bracketed_shape : forall g toks rx fuel s e m x,
+  brk_safe_b g = true -> parse_root g toks rx fuel s e = ROk m -> sub m x ->
+  mr_matched x = Some (MKind (k_bracketed g)) -> Shape g toks (mr_start x) (mr_end x) (mr_ch x).
+Proof. exact bracketed_nodes_shape. Qed.
+Print Assumptions Pem_bracketed_shape.
+
+(** ... and of every match of every node, start index, slice and terminator context. *)
+Theorem Pem_match_bracketed_shape : forall g toks rx fuel n idx len terms m,
+  brk_safe_b g = true -> match_node g toks rx fuel n idx len terms = ROk m -> Shapes g toks m.
+Proof. exact match_node_bracket_shape. Qed.
+Print Assumptions Pem_match_bracketed_shape.
+
+Theorem Pem_brk_safe_wf_safe : forall g, brk_safe_b g = true -> wf_safe_b g = true.
+Proof. exact brk_safe_wf_safe. Qed.
+Print Assumptions Pem_brk_safe_wf_safe.
+
+(** [wf_safe_b] alone is not enough: with an opening "bracket" of two tokens every match is still well-formed,
+    but the bracketed node starts with an unnamed two-token match. *)
+Theorem Pem_bracket_shape_arbitrary_graph_refuted :
+  exists g ptoks rx fuel s e m,
+    wf_safe_b g = true /\ brk_safe_b g = false /\
+    parse_root g (toks_of_list ptoks) rx fuel s e = ROk m /\
+    mr_matched m = Some (MKind (k_bracketed g)) /\
+    ~ Shape g (toks_of_list ptoks) (mr_start m) (mr_end m) (mr_ch m).
+Proof. exact bracket_shape_arbitrary_graph_refuted. Qed.
+Print Assumptions Pem_bracket_shape_arbitrary_graph_refuted.
